@@ -33,7 +33,7 @@ ASSUMPTIONS = ["'loading it back' means Module.from_json of the minimal dump (JS
                "built-in modules: a fixed list of five quick-to-import ones"]
 MANIFEST = {
     "category": "exploration",
-    "text": "Bounded exhaustive enumeration of the model corpus (all feature pairs x 4 containers + 9 further directory layouts x 2 agents x aliases resolved or not, one case per expression template) with serialise / reload-from-minimal / re-serialise identity in both dump modes, object-level equivalence of the reloaded tree (kinds, names, line spans incl. alias spans, docstrings, labels, signatures, expressions, alias targets read through the object API), name-resolution equality on the reloaded tree, and byte equality of the real `griffe dump` CLI output with the API serialisation (package requested by name, by directory path and through a submodule). Layouts include namespace portions out of alphabetical order and wildcard imports that do not run (type-guarded, stub-only).",
+    "text": "Bounded exhaustive enumeration of the model corpus (all feature pairs x 4 containers + 9 further directory layouts x 2 agents x aliases resolved or not, one case per expression template) with serialise / reload-from-minimal / re-serialise identity in both dump modes, object-level equivalence of the reloaded tree (kinds, names, line spans incl. alias spans, docstrings, labels, signatures, expressions, alias targets read through the object API), name-resolution equality on the reloaded tree, and byte equality of the real `griffe dump` CLI output with the API serialisation (package requested by name, by directory path and through a submodule). Layouts include namespace portions out of alphabetical order and wildcard imports that do not run (type-guarded, stub-only). Layouts include a name imported through a re-export chain; features include dataclass options unpacked from dictionaries and more un-annotated docstring items than the signature's tuple has elements.",
     "note": "Complete for the corpus; fields outside the corpus features are not covered.",
     "technique": "model checking by exhaustive small-scope enumeration of object trees with serialise/reload/re-serialise identity on the real encoder, decoder and CLI",
 }
